@@ -20,7 +20,7 @@ import (
 // C05 — host and MAC tables stay mutually consistent (structural invariants)
 // C06 — notifications report every transition exactly once (transcript comparison)
 
-const c04Rule = "histories of IPv4/IPv6/ARP frames (own, router, multicast, client MACs; on-LAN, off-LAN, zero, broadcast, link-local, global, multicast sources; forged ARP sender), DHCP updates, name updates, virtual-time advances and purges: every sequence up to a bounded depth over a 15-symbol alphabet on a fresh session (exhaustive) plus rapid-drawn sequences of 5..60 ops over the full universe, 3 LAN prefixes and 3 deadline triples; after every op the query API is compared with a reference model. non-trivial = the history contains an IPv4 change of a MAC, a re-binding, a purge that changes state, or a frame from an excluded source; distinct by hash of the op list"
+const c04Rule = "histories of IPv4/IPv6/ARP frames (own, router, multicast, client MACs; on-LAN, off-LAN, zero, broadcast, link-local, global, multicast sources; forged ARP sender), DHCP updates, name updates, virtual-time advances and purges: every sequence up to a bounded depth over a 15-symbol alphabet on a fresh session (exhaustive) plus rapid-drawn sequences of 5..60 ops over the full universe, 3 LAN prefixes and 3 deadline triples; after every op the query API is compared with a reference model; sub-check many-stations: 17..250 silent stations, purge past OfflineDeadline (all offline), up to 5 heard again, purge past PurgeDeadline (all others removed with their MAC entries in that pass); one history in four runs with the notification channel full and unread. non-trivial = the history contains an IPv4 change of a MAC, a re-binding, a purge that changes state, or a frame from an excluded source; distinct by hash of the op list"
 
 // the 15-symbol alphabet of the bounded-exhaustive sweep
 var c04Alphabet = []hOp{
